@@ -173,8 +173,11 @@ func (l *LedgerProvider) acq(kind int, get func() unsafe.Pointer) unsafe.Pointer
 		return p
 	}
 	if t.depth > 0 || t.NoYield > 0 {
-		// nested use by the provider itself (newGzipReader borrows a writer): pass through
-		return get()
+		// nested use by the provider itself (newGzipReader borrows a writer): no schedule point, but
+		// the same pairing rule, kept in a task-private list
+		p := get()
+		t.nested = append(t.nested, ptrOf(p))
+		return p
 	}
 	t.Yield(SiteAcquire, KYield, uint64(kind), 0)
 	t.depth++
@@ -193,6 +196,17 @@ func (l *LedgerProvider) rel(kind int, ptr unsafe.Pointer, reset func(), put fun
 		return
 	}
 	if t.depth > 0 || t.NoYield > 0 {
+		found := false
+		for i, q := range t.nested {
+			if q == ptrOf(ptr) {
+				t.nested = append(t.nested[:i], t.nested[i+1:]...)
+				found = true
+				break
+			}
+		}
+		if !found {
+			t.Ev("nested-release-not-held", objName(kind), 0)
+		}
 		put()
 		return
 	}
